@@ -5,6 +5,8 @@ from ..cfg import CFG, assigned_value
 from ..lib import (params, returns_of, is_none_const, dominating_literals, has_literal)
 from . import cachefam as F
 
+from . import extra as X
+
 EXPLANATION = ("Error-path shape rules: short-circuit after a failed predecessor; total exception capture around the command call "
                "that marks the state; the error flag written after the last metadata merge; position and query on every failure "
                "report in the evaluator and the argument parsers; positions originating in the parse actions; link failures "
@@ -278,3 +280,5 @@ def run(chk):
     rule_unknown_command(chk, "C06.7")
     rule_resource_failures(chk, "C06.8")
     F.rule_backend_refuses_errors(chk, chk.repo, "C06.9")
+    X.rule_sequence_remainder(chk, "C06.10")
+    X.rule_error_kind_agreement(chk, "C06.11")
